@@ -864,6 +864,25 @@ def special_cases(rng, start_id, quick):
     return out
 
 
+def deep_cases(rng, start_id, quick):
+    """many samples along a curve / on a grid (a path-like neighbourhood graph), cheap methods, the call made on a
+    thread with a 128 KiB stack: recursion whose depth grows with N (instead of with log N) overflows it"""
+    out = []
+    cid = start_id
+    plan = [("ms", 3000, "vptree", "collinear"), ("spe", 1000, "vptree", "collinear"),
+            ("spe", 1000, "covertree", "collinear"), ("ms", 1000, "covertree", "lattice")]
+    if not quick:
+        plan += [("spe", 3000, "vptree", "lattice"), ("ms", 3000, "covertree", "collinear"),
+                 ("spe", 3000, "covertree", "collinear"), ("ms", 2000, "brute", "collinear")]
+    for m, N, nm, kind in plan:
+        over = {"speg": 0, "maxit": 2, "spen": 5} if m == "spe" else {"maxit": 1}
+        c = interior_case(rng, cid, m, N=N, D=2, kind=kind, nm=nm, stack=128, **over)
+        c["d"], c["k"] = (2 if m == "spe" else 1), 4
+        out.append(c)
+        cid += 1
+    return out
+
+
 PAR_ENVS = [("region of 2 threads", 2, {}),
             ("region of 3 threads, OMP_THREAD_LIMIT=3 < OMP_NUM_THREADS=4, nested parallelism on", 3,
              {"OMP_NUM_THREADS": "4", "OMP_THREAD_LIMIT": "3", "OMP_MAX_ACTIVE_LEVELS": "2", "OMP_NESTED": "true"})]
@@ -1084,6 +1103,9 @@ def search_phase(ctx, exes, mexe, rng, stats, budget):
         n += len(pc)
     extra = huge_cases(rng, 610000, False) + special_cases(rng, 620000, False)
     evaluate(ctx, exes, mexe, extra, stats)
+    extra2 = deep_cases(rng, 630000, False)
+    evaluate(ctx, exes, mexe, extra2, stats, wd=90, workers=4)
+    n += len(extra2)
     n += len(extra)
     if ctx.has_violation():
         return n
@@ -1163,6 +1185,12 @@ def run(ctx):
     nrandom = len(cases) - ncorpus - nboundary
     nlarge = 0
     model, results = evaluate(ctx, exes, mexe, cases, stats)
+    deep = deep_cases(rng, 95000, quick)
+    model2, results2 = evaluate(ctx, exes, mexe, deep, stats, wd=60, workers=4)
+    model.update(model2)
+    for b in results2:
+        results[b].update(results2[b])
+    cases += deep
     npar = n_single_build = 0
     for i, (label, T, env_extra) in enumerate(PAR_ENVS):
         pc = par_cases(rng, 90000 + 1000 * i, T)
@@ -1192,7 +1220,7 @@ def run(ctx):
     distinct = {key_of(c) for c in cases if model[c["id"]]["cls"] in ("shape", "crash")}
     hist = {"generators": {"corpus": ncorpus, "boundary": nboundary - nhuge - nspecial, "huge_magnitude": nhuge,
                            "special_values": nspecial, "random": nrandom, "large": nlarge,
-                           "in_parallel_region_twins": npar},
+                           "in_parallel_region_twins": npar, "small_stack_large_N": len(deep)},
             "translators": tstatus,
             "method": {}, "N": {}, "kind": {}, "neighbors_method": {}, "eigen_method": {}, "stats": stats}
     for c in cases:
